@@ -28,7 +28,7 @@ def gen_cases(rng, tier):
                'astext': rng.choice([None, None, None, 'plain', 'zeros', 'zeros', 'plus', 'spaces'])}          # the integer given as decimal text, also zero-padded: the same value
     for _ in range(N // 4):
         yield {'op': 'badlen', 'name': rng.choice(['float', 'floatle', 'floatbe', 'bfloat', 'bool', 'p4binary', 'e4m3mxfp', 'e3m2mxfp', 'e2m1mxfp', 'mxint', 'hex', 'oct']),
-               'n': rng.choice([0, 1, 2, 4, 5, 6, 7, 8, 12, 15, 16, 17, 24, 32, 48, 63, 64, 65, 128, -16]), 'route': rng.choice(['kw_len', 'kw_name', 'token', 'build', 'pack']), 'cls': rng.choice(CLASSES)}
+               'n': rng.choice([0, 1, 2, 4, 5, 6, 7, 8, 12, 15, 16, 17, 24, 32, 48, 63, 64, 65, 128, -16]), 'route': rng.choice(['kw_len', 'kw_name', 'token', 'build', 'pack', 'setattr']), 'cls': rng.choice(CLASSES)}
     for _ in range(N // 4):
         k = rng.choice(['hex', 'oct', 'bin', 'bytes', 'bits'])
         w = {'hex': 4, 'oct': 3, 'bin': 1, 'bytes': 8, 'bits': 1}[k]
@@ -38,7 +38,7 @@ def gen_cases(rng, tier):
         if bad_digit:
             j = rng.randrange(nd); val = val[:j] + rng.choice({'hex': 'gxz-', 'oct': '89a', 'bin': '2a9'}[k]) + val[j + 1:]
         stated = nd + rng.choice([0, 0, 1, -1, 3]) if k == 'bytes' else w * nd + rng.choice([0, 0, 0, w, -w, 1, 2])
-        yield {'op': 'token_len', 'kind': k, 'val': val, 'stated': stated, 'bad_digit': bad_digit, 'route': rng.choice(['token', 'pack', 'build', 'kw_len', 'kw_name']), 'cls': rng.choice(CLASSES)}
+        yield {'op': 'token_len', 'kind': k, 'val': val, 'stated': stated, 'bad_digit': bad_digit, 'route': rng.choice(['token', 'pack', 'build', 'kw_len', 'kw_name', 'setattr']), 'cls': rng.choice(CLASSES)}
 
     # a stated length of zero with a non-empty value (the only stated length for which `if length:` and `if length is not None:` differ)
     for k, vals in (('hex', ['a', 'ff']), ('oct', ['7']), ('bin', ['1', '01']), ('bytes', ['a']), ('bits', ['1'])):
@@ -58,6 +58,12 @@ def gen_cases(rng, tier):
         n = rng.choice([1, 3, 8, 12])
         m = rng.choice([n, n, 0, n - 1, n + 1, 2 * n])
         yield {'op': 'array_bits', 'n': n, 'val': rand_bits(rng, m), 'as': rng.choice(['Bits', 'BitArray', 'BitStream', 'str']), 'route': rng.choice(['setitem', 'setslice', 'extslice', 'append', 'insert', 'extend', 'init']), 'cls': 'Bits'}
+    # bytes= given as any object with the buffer protocol (items of 1, 2, 4, 8 bytes, signed, float, multi-dimensional, strided, read-only and writable) or
+    # as a sequence of ints, with offset / length in and out of range: the supplied data is the object's BYTES, whatever len(obj) says
+    yield from gen_bufwindow(rng, tier)
+    # assignments to an existing Array (dtype property with every kind of unusable format, read-only properties, items / slices / append / insert / extend
+    # with values that do not fit, failing in-place operators, ...): refused ones leave every observable as it was, accepted ones have exactly the requested size
+    yield from gen_array_set(rng, tier)
     # offset / length windows beyond the supplied bytes, bytearray, bitarray, BytesIO, file name or file handle (cases, runner and oracle of C17)
     import random as _random
     from props import c17
@@ -73,6 +79,8 @@ def run_impl(c):
     if op == 'window':
         from props import c17
         return c17.run_impl(c)
+    if op == 'bufwindow': return run_bufwindow(c)
+    if op == 'array_set': return run_array_set(c)
     if op == 'e8m0':
         x = float.fromhex(c['f']); r = c['route']
         def f():
@@ -118,19 +126,23 @@ def run_impl(c):
         if route == 'build': return Dtype(name, n).build(value).bin
         if route == 'pack': return pack(tok, value).bin
         if route == 'setattr':
-            a = BitArray('0b1011, 0xabc')
-            before = a.bin
+            a = (C if c['cls'] in MUTABLE else BitArray)('0b1011, 0xabc')          # a stream also has a position: a refused assignment leaves that alone as well
+            if hasattr(a, 'pos'): a.pos = 5
+            state = lambda: (a.bin, len(a), getattr(a, 'pos', None), a.tobytes())
+            before = state()
             try: setattr(a, f'{name}{n}', value)
             except Exception as e:
-                return ['raised', exn_name(e), a.bin == before]
+                return ['raised', exn_name(e), state() == before]
             return a.bin
         if route == 'setattr_plain':          # a.uintle = v: the length is the current length of the target
             if n <= 0: return mk(name, n, value, 'setattr')
-            a = BitArray(bin='10' * n)[:n]
-            before = a.bin
+            a = (C if c['cls'] in MUTABLE else BitArray)(bin='10' * n)[:n]
+            if hasattr(a, 'pos'): a.pos = n // 2
+            state = lambda: (a.bin, len(a), getattr(a, 'pos', None), a.tobytes())
+            before = state()
             try: setattr(a, name, value)
             except Exception as e:
-                return ['raised', exn_name(e), a.bin == before]
+                return ['raised', exn_name(e), state() == before]
             return a.bin
         if route == 'array_slice':           # a[::2] = [fits, value]: nothing may change when value does not fit
             a = Array(f'{name}{n}', [0, 0, 0, 0])
@@ -173,6 +185,15 @@ def run_impl(c):
             if r == 'kw_len':
                 if k in ('bytes',): return pack(f'bytes:{st}', v).bin
                 return C(**{k: v, 'length': st}).bin
+            if r == 'setattr':          # a.hex8 = 'ff' on an existing object (a stream with a position too): refused, it stays as it was
+                if st < 0: return pack(f'{k}:{st}', v).bin
+                a = (C if c['cls'] in MUTABLE else BitArray)('0b1011, 0xabc')
+                if hasattr(a, 'pos'): a.pos = 5
+                state = lambda: (a.bin, len(a), getattr(a, 'pos', None), a.tobytes())
+                before = state()
+                try: setattr(a, f'{k}{st}', v)
+                except Exception as e: return ['raised', exn_name(e), state() == before]
+                return a.bin
             if r == 'kw_name':          # the length is part of the keyword: hex8='ff'
                 if st < 0: return pack(f'{k}:{st}', v).bin
                 return C(**{f'{k}{st}': v}).bin
@@ -196,6 +217,8 @@ def oracle(c, obs):
     if op == 'window':
         from props import c17
         return c17.oracle(c, obs)
+    if op == 'bufwindow': return oracle_bufwindow(c, obs)
+    if op == 'array_set': return oracle_array_set(c, obs)
     if op == 'e8m0':
         import math
         x = float.fromhex(c['f'])
@@ -256,10 +279,13 @@ def oracle(c, obs):
         if not rejected: return f"{k}:{st} with value {val!r} ({actual} bits, bad_digit={c['bad_digit']}) via {c['route']} was not rejected: {str(obs)[:120]}"
         return None
 
-def nontrivial(c, obs): return obs[0] == 'err' or (isinstance(obs[1], list) and obs[1][0] == 'raised')
+def nontrivial(c, obs):
+    if c['op'] == 'array_set': return obs[0] == 'ok' and obs[1]['r'][0] == 'err'
+    return obs[0] == 'err' or (isinstance(obs[1], list) and obs[1][0] == 'raised')
 def classify(c, obs): return None
 
 def coq_check(c, obs):
+    if c['op'] in ('bufwindow', 'array_set'): return None          # buffer objects and Array objects are outside the store model: the Python oracle decides
     if c['op'] == 'window':
         from props import c17
         return c17.coq_check(c, obs)
@@ -273,6 +299,454 @@ def coq_check(c, obs):
         dd = f'(mkdd "{name}" {signed} false {"[8; 16]" if whole else "[]"} {cbool(whole)} 1)'
         return (f"rbits_eqb (match get_dtype {dd} (Some {n}) with Err e => Err e | Ok _ => set_intlike {signed} {le} 0 {cz(v)} (Some {n}) end) {cres(o, cbits)}")
     return None
+
+# ------------------------------------------------------------------------------------------------------------------------------------------
+# bytes= from buffer objects (C(bytes=obj, offset=, length=), a.bytes = obj, bytesN=obj, pack('bytes:N', obj), Dtype('bytes', N).build(obj))
+# The reference is the object's bytes written out as a str of '0'/'1' and cut with str slicing. What varies: the exporter (bytes, bytearray,
+# memoryview read-only / writable / sub-view / strided / reversed / cast to wider, signed, float, char or bool items / two-dimensional,
+# array.array of every item size, ctypes arrays, BytesIO.getbuffer(), mmap, list / tuple of ints), so that len(obj), obj.nbytes and the
+# number of bytes all differ; the class created; both bit numberings; offset and length at, just inside and just outside the byte count AND
+# the item count (8 * len(obj) is the size a careless check would use).
+# ------------------------------------------------------------------------------------------------------------------------------------------
+BUF_CODES = ['B', 'b', 'H', 'h', 'I', 'i', 'Q', 'q', 'f', 'd']
+BUF_PLAIN = ['bytes', 'bytearray', 'list', 'tuple', 'mv', 'mv_w', 'mv_sub', 'mv_strided', 'mv_rev', 'bytesio_buf', 'mmap', 'mv_cast:c', 'mv_cast:?']
+BUF_WIDE = ['array', 'mv_array', 'mv_cast', 'mv_2d', 'mv_sub', 'mv_strided', 'ctypes', 'mv_ctypes']
+BUF_NO_BUFFER = ('list', 'tuple')          # sequences of ints, not exporters
+
+def buf_itemsize(kind):
+    import struct
+    return struct.calcsize(kind.split(':')[1]) if ':' in kind else 1
+
+def mk_buffer(kind, raw):
+    """the object for bytes=: an exporter (or sequence) whose bytes are exactly `raw` (list of ints 0..255, a whole number of items)"""
+    import array, ctypes, io, mmap
+    rb = bytes(raw)
+    base, _, code = kind.partition(':')
+    size = buf_itemsize(kind)
+    if base == 'bytes': return rb
+    if base == 'bytearray': return bytearray(rb)
+    if base == 'list': return list(raw)
+    if base == 'tuple': return tuple(raw)
+    if base == 'mv': return memoryview(rb)
+    if base == 'mv_w': return memoryview(bytearray(rb))
+    if base == 'bytesio_buf': return io.BytesIO(rb).getbuffer()
+    if base == 'mmap':
+        if not rb: return memoryview(rb)
+        m = mmap.mmap(-1, len(rb)); m[:] = rb; return m
+    if base == 'mv_rev': return memoryview(rb[::-1])[::-1]
+    if base == 'mv_cast': return memoryview(rb).cast(code)
+    if base == 'mv_2d':
+        n = len(rb) // size
+        shape = (n // 2, 2) if n % 2 == 0 and n else (n, 1)
+        return memoryview(rb).cast('B').cast(code, shape) if n else memoryview(rb).cast(code)
+    if base in ('array', 'mv_array'):
+        a = array.array(code); a.frombytes(rb)
+        return a if base == 'array' else memoryview(a)
+    if base == 'mv_sub':          # a contiguous part of a larger buffer
+        if not code: return memoryview(bytearray(b'\xff\xfe' + rb + b'\xfd'))[2:-1]
+        a = array.array(code); a.frombytes(b'\xff' * size + rb + b'\xfe' * size)
+        return memoryview(a)[1:-1]
+    if base == 'mv_strided':      # every second item of a larger buffer: not contiguous
+        if not code:
+            inter = bytearray(2 * len(rb)); inter[::2] = rb
+            return memoryview(inter)[::2]
+        inter = bytearray()
+        for i in range(0, len(rb), size): inter += rb[i:i + size] + b'\xa5' * size
+        a = array.array(code); a.frombytes(bytes(inter))
+        return memoryview(a)[::2]
+    if base in ('ctypes', 'mv_ctypes'):
+        T = {'B': ctypes.c_uint8, 'b': ctypes.c_int8, 'H': ctypes.c_uint16, 'h': ctypes.c_int16, 'I': ctypes.c_uint32, 'i': ctypes.c_int32, 'Q': ctypes.c_uint64, 'q': ctypes.c_int64,
+             'f': ctypes.c_float, 'd': ctypes.c_double}[code]
+        o = (T * (len(rb) // size)).from_buffer_copy(rb)
+        return o if base == 'ctypes' else memoryview(o)
+    raise AssertionError(kind)
+
+def gen_bufwindow(rng, tier):
+    kinds = list(BUF_PLAIN) + [f'{b}:{k}' for b in BUF_WIDE for k in BUF_CODES]
+    def one(kind, nitems, via=None):
+        size = buf_itemsize(kind)
+        raw = [rng.randrange(256) for _ in range(nitems * size)]
+        if kind == 'mv_cast:?': raw = [x & 1 for x in raw]
+        T = 8 * len(raw); I8 = 8 * (nitems // 2 if kind.startswith('mv_2d') and nitems and nitems % 2 == 0 else nitems)        # 8 * len(obj)
+        via = via or rng.choice(['kw'] * 6 + ['prop', 'kw_n', 'pack_n', 'pack', 'build_n', 'auto', 'add'])
+        if kind in BUF_NO_BUFFER: via = 'kw'
+        if via in ('auto', 'add') and not kind.startswith(('mv', 'bytes')): via = 'kw'          # positional / operand promotion is documented for bytes, bytearray and memoryview only
+        c = {'op': 'bufwindow', 'buf': kind, 'raw': raw, 'via': via, 'cls': rng.choice(CLASSES), 'lsb0': rng.random() < 0.25}
+        if via == 'kw':
+            marks = [0, 1, 7, 8, 9, T // 2, T - 9, T - 8, T - 1, T, T + 1, T + 8, I8 - 1, I8, I8 + 1, I8 + 8, rng.randrange(0, T + 2)]
+            off = rng.choice([None, None, 0, -1] + [m for m in marks if m >= 0])
+            o = off or 0
+            room = T - o
+            lens = [0, 1, 8, 9, room - 8, room - 1, room, room, room + 1, room + 8, I8 - o - 1, I8 - o, I8 - o + 1, T, T + 1, rng.randrange(0, T + 2)]
+            ln = rng.choice([None, None, None, -1] + [x for x in lens if x >= 0])
+            c.update(offset=off, length=ln)
+        elif via in ('kw_n', 'pack_n', 'build_n'):
+            c['n'] = max(1, len(raw) + rng.choice([0, 0, 0, 1, -1, nitems - len(raw), 8]))
+        return c
+    N = 420 if tier == 'quick' else 9000
+    for _ in range(N):
+        kind = rng.choice(kinds) if rng.random() < 0.8 else rng.choice([k for k in kinds if buf_itemsize(k) > 1])
+        yield one(kind, rng.choice([0, 1, 2, 2, 3, 4, 5, 8, 9] if tier == 'quick' else [0, 1, 2, 3, 4, 5, 6, 8, 9, 16, 33, 130]))
+    # every exporter once with the plainest in-range requests: the whole data with offset=0 / with its exact length / from the last byte on
+    for kind in kinds:
+        n = rng.choice([2, 3, 4, 6])
+        c = one(kind, n, 'kw'); T = 8 * len(c['raw'])
+        for off, ln in ((0, None), (None, T), (T - 8, None), (T - 8, 8), (T, 0)):
+            if tier == 'quick' and rng.random() < 0.5: continue
+            d = dict(c); d.update(offset=off, length=ln); yield d
+
+def run_bufwindow(c):
+    import bitstring
+    from bitstring import pack, Dtype
+    C = cls_of(c['cls']); via = c['via']
+    obj = mk_buffer(c['buf'], c['raw'])
+    if c['buf'] not in BUF_NO_BUFFER: assert memoryview(obj).tobytes() == bytes(c['raw']), 'harness: the buffer does not hold the intended bytes'
+    def f():
+        bitstring.options.lsb0 = bool(c.get('lsb0'))          # the window is the same stored bits in both numberings (reset by the driver)
+        if via == 'kw':
+            kw = {}
+            if c['offset'] is not None: kw['offset'] = c['offset']
+            if c['length'] is not None: kw['length'] = c['length']
+            s = C(bytes=obj, **kw); return [s.bin, len(s)]
+        if via == 'prop':
+            a = cls_of(c['cls'] if c['cls'] in MUTABLE else 'BitArray')('0b101'); a.bytes = obj; return [a.bin, len(a)]
+        if via == 'kw_n': s = C(**{f"bytes{c['n']}": obj}); return [s.bin, len(s)]
+        if via == 'pack_n': s = pack(f"bytes:{c['n']}", obj); return [s.bin, len(s)]
+        if via == 'pack': s = pack('bytes', obj); return [s.bin, len(s)]
+        if via == 'build_n': s = Dtype('bytes', c['n']).build(obj); return [s.bin, len(s)]
+        if via == 'auto': s = C(obj); return [s.bin, len(s)]
+        if via == 'add': s = C() + obj; return [s.bin, len(s)]
+    return attempt(f)
+
+def oracle_bufwindow(c, obs):
+    raw = c['raw']; bits = ''.join(format(b, '08b') for b in raw); T = len(bits)
+    what = f"{c['cls']} via {c['via']} from <{c['buf']}> holding {len(raw)} bytes ({T} bits)"
+    if c['via'] == 'kw':
+        off, ln = c['offset'], c['length']
+        what += f", offset={off}, length={ln}"
+        o = off or 0
+        if (off is not None and off < 0) or (ln is not None and ln < 0): exp = None
+        elif ln is None: exp = bits[o:] if o <= T else None
+        else: exp = bits[o:o + ln] if o + ln <= T else None
+    elif c['via'] in ('kw_n', 'pack_n', 'build_n'):
+        what += f", stated length {c['n']} bytes"
+        exp = bits if c['n'] == len(raw) else None
+    else: exp = bits
+    if exp is None:
+        return None if tuple(obs) == ('err', 'ValueError') else f"{what}: beyond the supplied data, must raise CreationError; got {str(obs)[:120]}"
+    if obs[0] != 'ok': return f"{what}: in range, must give the {len(exp)} bits {exp[:32]}{'...' if len(exp) > 32 else ''}; raised {obs[1]}"
+    got, n = obs[1]
+    if got != exp or n != len(exp): return f"{what}: must give the {len(exp)} bits {exp[:32]}{'...' if len(exp) > 32 else ''}; got {n} bits {got[:32]}{'...' if len(got) > 32 else ''}"
+    return None
+
+# ------------------------------------------------------------------------------------------------------------------------------------------
+# assignments to an existing Array. A refused one (ValueError for a value / length that does not fit, IndexError for a position, AttributeError for a
+# read-only property, any exception for an argument of an undocumented Python type) must leave EVERY observable of the Array as it was - dtype, itemsize,
+# len, items, data, trailing bits, repr, iteration, indexing, slicing, tobytes, count, pp, copy - and the Array must go on behaving like a fresh Array
+# with the same content (a follow-up operation gives the same result on both). An accepted one has exactly the requested size: the list model over
+# the item slots (strs of w bits) says what the data must be.
+# ------------------------------------------------------------------------------------------------------------------------------------------
+ARR_SPECS = [('uint8', 'u', 8), ('uint5', 'u', 5), ('uint12', 'u', 12), ('uint64', 'u', 64), ('int16', 'i', 16), ('int7', 'i', 7), ('int1', 'i', 1), ('uintle24', 'u', 24), ('intbe32', 'i', 32),
+             ('uintne16', 'u', 16), ('float32', 'f', 32), ('float16', 'f', 16), ('floatle64', 'f', 64), ('bfloat', 'f', 16), ('e4m3mxfp', 'f', 8), ('p4binary', 'f', 8), ('hex8', 'hex', 8), ('hex4', 'hex', 4),
+             ('bin3', 'bin', 3), ('oct6', 'oct', 6), ('bool', 'bool', 1), ('bytes2', 'bytes', 16), ('bytes1', 'bytes', 8), ('bits5', 'bits', 5), ('>h', 'i', 16), ('<H', 'u', 16), ('=B', 'u', 8)]
+ARR_FIXED = {'bool': 1, 'bfloat': 16, 'p4binary': 8, 'p3binary': 8, 'e4m3mxfp': 8, 'e5m2mxfp': 8, 'e3m2mxfp': 6, 'e2m3mxfp': 6, 'e2m1mxfp': 4, 'e8m0mxfp': 8, 'mxint': 8}
+ARR_ENDIAN = ('uintbe', 'uintle', 'uintne', 'intbe', 'intle', 'intne')
+ARR_FLOATS = ('float', 'floatbe', 'floatle', 'floatne')
+ARR_NAMES = ['uint', 'int', 'bin', 'bits', 'bytes', 'hex', 'oct'] + list(ARR_ENDIAN) + list(ARR_FLOATS) + list(ARR_FIXED) + ['ue', 'se', 'uie', 'sie']
+ARR_STRUCT = {'>h': 16, '<H': 16, '=B': 8, '>f': 32, '<d': 64, '>e': 16, '<q': 64, '>L': 32, '=b': 8}
+ARR_JUNK = ['', 'foo', 'foo8', 'uint8,uint8', 'uint-8', '8uint', '2*uint8', '>z', '<', '>x', 'x', 'uint8uint8', 'float:', None, 5, 2.5, ['uint8'], {'b': [117, 105, 110, 116, 56]}]
+
+def array_fmt_bits(name, n):
+    """bits per item when (name, stated length or None) is a format an Array can have, else None - from the documentation of the types alone"""
+    if name in ARR_FIXED: return ARR_FIXED[name] if n in (None, ARR_FIXED[name]) else None
+    if name in ('ue', 'se', 'uie', 'sie') or n is None or n <= 0: return None
+    if name in ('uint', 'int', 'bin', 'bits'): return n
+    if name == 'bytes': return 8 * n
+    if name == 'hex': return n if n % 4 == 0 else None
+    if name == 'oct': return n if n % 3 == 0 else None
+    if name in ARR_ENDIAN: return n if n % 8 == 0 else None
+    if name in ARR_FLOATS: return n if n in (16, 32, 64) else None
+    raise AssertionError(name)
+
+def arr_value(rng, k, w):
+    if k == 'u': return rng.choice([0, 1, (1 << w) - 1, rng.randrange(1 << w)])
+    if k == 'i': return rng.choice([0, -1, (1 << (w - 1)) - 1, -(1 << (w - 1)), rng.randrange(-(1 << (w - 1)), 1 << (w - 1))])
+    if k == 'f': return rng.choice([0.0, 1.0, -1.5, 0.25, 2.0, 3.0, -0.5])
+    if k == 'hex': return ''.join(rng.choice('0123456789abcdef') for _ in range(w // 4))
+    if k == 'bin': return ''.join(rng.choice('01') for _ in range(w))
+    if k == 'oct': return ''.join(rng.choice('01234567') for _ in range(w // 3))
+    if k == 'bool': return rng.random() < 0.5
+    if k == 'bytes': return {'b': [rng.randrange(256) for _ in range(w // 8)]}
+    if k == 'bits': return {'bits': ''.join(rng.choice('01') for _ in range(w))}
+
+def arr_bad_value(rng, k, w):
+    """a value that must not be accepted as an item: outside the range, of the wrong size, with an invalid digit - or of a Python type the dtype does not take"""
+    other = rng.choice([None, None, 'x', [1]])
+    if k == 'u': return rng.choice([-1, 1 << w, (1 << w) + 5, 1 << (w + 70), -(1 << w), other])
+    if k == 'i': return rng.choice([-(1 << (w - 1)) - 1, 1 << (w - 1), 1 << w, -(1 << (w + 70)), other])
+    if k == 'f': return other
+    if k in ('hex', 'bin', 'oct'):
+        per = {'hex': 4, 'bin': 1, 'oct': 3}[k]; good = arr_value(rng, k, w)
+        return rng.choice([good + good[:1], good[:-1], good + good, rng.choice('gz8 -') + good[1:] if k != 'hex' else rng.choice('gz -') + good[1:], 5, None])
+    if k == 'bool': return rng.choice([2, -1, 'x', None])
+    if k == 'bytes': return rng.choice([{'b': [7] * (w // 8 + 1)}, {'b': [7] * (w // 8 - 1)}, {'b': [7] * (w // 4)}, None])
+    if k == 'bits': return rng.choice([{'bits': '1' * (w + 1)}, {'bits': '1' * (w - 1)}, {'bits': ''}, None])
+
+def arr_fits(k, w, v):
+    """True / False where the documentation decides, None for values of a Python type the dtype does not document"""
+    isint = isinstance(v, int) and not isinstance(v, bool)
+    if k == 'u': return (0 <= v < (1 << w)) if isint else None
+    if k == 'i': return (-(1 << (w - 1)) <= v < (1 << (w - 1))) if isint else None
+    if k == 'f': return True if isint or isinstance(v, float) else None
+    if k in ('hex', 'bin', 'oct'):
+        per, digits = {'hex': (4, '0123456789abcdefABCDEF'), 'bin': (1, '01'), 'oct': (3, '01234567')}[k]
+        return (len(v) * per == w and all(ch in digits for ch in v)) if isinstance(v, str) else None
+    if k == 'bool': return True if isinstance(v, bool) else None
+    if k == 'bytes': return (8 * len(v['b']) == w) if isinstance(v, dict) and 'b' in v else None
+    if k == 'bits': return (len(v['bits']) == w) if isinstance(v, dict) and 'bits' in v else None
+
+def arr_pv(v):
+    import bitstring
+    if isinstance(v, dict): return bytes(v['b']) if 'b' in v else bitstring.Bits(bin=v['bits'])
+    return v
+
+def arr_canon(x):
+    import bitstring
+    if isinstance(x, float): return ['f', x.hex() if x == x else 'nan']
+    if isinstance(x, bytes): return {'b': list(x)}
+    if isinstance(x, bitstring.Bits): return {'bits': x.bin}
+    if isinstance(x, (list, tuple)): return [arr_canon(y) for y in x]
+    return x
+
+def arr_probe(a):
+    """what a user can see of the Array; an exception while looking is part of the picture"""
+    import io, copy
+    def pp():
+        s = io.StringIO(); a.pp(stream=s); return s.getvalue()
+    out = []
+    for label, fn in (('dtype', lambda: str(a.dtype)), ('dtype.name', lambda: a.dtype.name), ('dtype.length', lambda: a.dtype.length), ('dtype.bitlength', lambda: a.dtype.bitlength),
+                      ('dtype.scale', lambda: repr(a.dtype.scale)), ('itemsize', lambda: a.itemsize), ('len', lambda: len(a)), ('tolist', lambda: a.tolist()), ('data', lambda: a.data.bin),
+                      ('trailing_bits', lambda: a.trailing_bits.bin), ('repr', lambda: repr(a)), ('iter', lambda: [x for x in a]), ('a[0]', lambda: a[0]), ('a[-1]', lambda: a[-1]),
+                      ('a[::2]', lambda: [a[::2].tolist(), a[::2].data.bin]), ('a[1:]', lambda: a[1:].data.bin), ('tobytes', lambda: list(a.tobytes())), ('count', lambda: a.count(a[0])),
+                      ('pp', pp), ('copy', lambda: [copy.copy(a).tolist(), str(copy.copy(a).dtype), copy.copy(a).data.bin]), ('equals', lambda: a.equals(copy.copy(a)))):
+        try: out.append([label, arr_canon(fn())])
+        except Exception as e: out.append([label, f'<{type(e).__name__}>'])
+    return out
+
+def arr_new_dtype(act):
+    from bitstring import Dtype
+    name, n, form = act['name'], act['n'], act['form']
+    if form == 'str': return name if n is None else f'{name}{n}'
+    if form == 'str_colon': return name if n is None else f'{name}:{n}'
+    if form == 'struct': return name
+    if form == 'obj': return Dtype(name, n) if n is not None else Dtype(name)
+    if form == 'obj_auto': return Dtype(name, n, scale='auto') if n is not None else Dtype(name, scale='auto')
+
+def gen_array_set(rng, tier):
+    N = 380 if tier == 'quick' else 9000
+    def start():
+        fmt, k, w = rng.choice(ARR_SPECS)
+        n = rng.choice([0, 1, 2, 3, 4, 5])
+        return {'op': 'array_set', 'cls': 'Bits', 'dtype': fmt, 'k': k, 'w': w, 'items': [arr_value(rng, k, w) for _ in range(n)], 'trail': rand_bits(rng, min(w - 1, rng.choice([0, 0, 0, 1, 2, w - 1]))),
+                'spare': arr_value(rng, k, w), 'then': rng.choice([None, 'append', 'dtype:uint8', 'dtype:hex4', 'reverse', 'pop', 'insert'])}
+    def dtype_act():
+        r = rng.random()
+        if r < 0.12: return {'a': 'dtype_junk', 'v': rng.choice(ARR_JUNK)}
+        if r < 0.2: return {'a': 'dtype', 'name': rng.choice(list(ARR_STRUCT)), 'n': None, 'form': 'struct'}
+        name = rng.choice(ARR_NAMES)
+        n = rng.choice([0, 0, 0, None, None, 1, 2, 3, 4, 6, 8, 12, 16, 17, 24, 32, 64, 65])
+        return {'a': 'dtype', 'name': name, 'n': n, 'form': rng.choice(['str', 'str', 'str_colon', 'obj', 'obj', 'obj_auto'])}
+    for _ in range(N):
+        c = start(); k, w, n = c['k'], c['w'], len(c['items'])
+        idx = lambda: rng.choice([0, -1, n - 1, n, -n, -n - 1, rng.randrange(-n - 2, n + 3)])
+        val = lambda: arr_bad_value(rng, k, w) if rng.random() < 0.7 else arr_value(rng, k, w)
+        vals = lambda m: [arr_bad_value(rng, k, w) if rng.random() < 0.35 else arr_value(rng, k, w) for _ in range(m)]
+        r = rng.random()
+        if r < 0.45: act = dtype_act()
+        elif r < 0.49: act = {'a': 'readonly', 'attr': rng.choice(['itemsize', 'trailing_bits'])}
+        elif r < 0.58: act = {'a': 'setitem', 'i': idx(), 'v': val()}
+        elif r < 0.70:
+            key = [rng.choice([None, idx()]), rng.choice([None, idx()]), rng.choice([None, 1, 1, 2, -1, -2, 3])]
+            m = len(range(*slice(*key).indices(n)))
+            act = {'a': 'setslice', 'key': key, 'vs': vals(rng.choice([m, m, m, m + 1, max(0, m - 1), rng.randrange(0, 4)]))}
+        elif r < 0.75: act = {'a': 'append', 'v': val()}
+        elif r < 0.80: act = {'a': 'insert', 'i': idx(), 'v': val()}
+        elif r < 0.85: act = {'a': 'extend', 'vs': vals(rng.randrange(0, 4))}
+        elif r < 0.89: act = {'a': rng.choice(['pop', 'delitem']), 'i': idx()}
+        elif r < 0.92: act = {'a': 'byteswap'}
+        elif r < 0.95: act = {'a': 'ibit', 'f': rng.choice(['and', 'or', 'xor']), 'bits': rand_bits(rng, rng.choice([w, w, w - 1, w + 1, 0, 2 * w]))}
+        elif c['dtype'].startswith(('uint', 'int')) and c['dtype'][-1].isdigit() and 'le' not in c['dtype'] and 'be' not in c['dtype'] and 'ne' not in c['dtype']:
+            lo, hi = ((-(1 << (w - 1)), (1 << (w - 1)) - 1) if k == 'i' else (0, (1 << w) - 1))
+            f = rng.choice(['add', 'sub', 'mul', 'floordiv', 'mod', 'lshift', 'rshift'])
+            act = {'a': 'iop', 'f': f, 'x': rng.choice([0, 1, -1, 2, hi, hi + 1, lo - 1, -2, w, 3] if 'shift' not in f else [0, 1, -1, 2, 3, w - 1, w, w + 1, -2])}
+        else: act = {'a': 'iop_array', 'f': rng.choice(['add', 'sub', 'mul', 'floordiv', 'truediv', 'mod', 'lshift', 'rshift']), 'd2': rng.choice(['uint8', 'hex8', 'float16', 'bytes1']), 'dn': rng.choice([1, 1, -1, 0])}
+        c['act'] = act
+        yield c
+
+def run_array_set(c):
+    import bitstring, operator
+    from bitstring import Array, Bits, Dtype
+    IOP = {'add': operator.iadd, 'sub': operator.isub, 'mul': operator.imul, 'floordiv': operator.ifloordiv, 'truediv': operator.itruediv, 'mod': operator.imod, 'lshift': operator.ilshift,
+           'rshift': operator.irshift, 'and': operator.iand, 'or': operator.ior, 'xor': operator.ixor}
+    act = c['act']
+    def fresh(): return Array(c['dtype'], [arr_pv(v) for v in c['items']], trailing_bits=Bits(bin=c['trail']) if c['trail'] else None)
+    def apply(a):
+        k = act['a']
+        if k == 'dtype': a.dtype = arr_new_dtype(act); return None
+        if k == 'dtype_junk': a.dtype = arr_pv(act['v']); return None
+        if k == 'readonly': setattr(a, act['attr'], 4); return None
+        if k == 'setitem': a[act['i']] = arr_pv(act['v']); return None
+        if k == 'setslice': a[slice(*act['key'])] = [arr_pv(v) for v in act['vs']]; return None
+        if k == 'append': return a.append(arr_pv(act['v']))
+        if k == 'insert': return a.insert(act['i'], arr_pv(act['v']))
+        if k == 'extend': return a.extend([arr_pv(v) for v in act['vs']])
+        if k == 'pop': return arr_canon(a.pop(act['i']))
+        if k == 'delitem': del a[act['i']]; return None
+        if k == 'byteswap': return a.byteswap()
+        if k == 'ibit': b = IOP[act['f']](a, '0b' + act['bits'] if act['bits'] else Bits()); return b is a
+        if k == 'iop': b = IOP[act['f']](a, act['x']); return b is a
+        if k == 'iop_array':
+            m = max(0, len(a) + act['dn'])
+            other = Array(act['d2'], {'uint8': [1] * m, 'hex8': ['01'] * m, 'float16': [1.0] * m, 'bytes1': [b'a'] * m}[act['d2']])
+            b = IOP[act['f']](a, other); return [b is a, arr_probe(b)[:10]]
+    def then(a):
+        t = c.get('then')
+        if t == 'append': return a.append(arr_pv(c['spare']))
+        if t == 'insert': return a.insert(1, arr_pv(c['spare']))
+        if t == 'reverse': return a.reverse()
+        if t == 'pop': return arr_canon(a.pop())
+        if t and t.startswith('dtype:'): a.dtype = t[6:]; return None
+    def f():
+        a = fresh()
+        out = {'before': arr_probe(a)}
+        out['r'] = list(attempt(lambda: apply(a)))
+        out['after'] = arr_probe(a)
+        if act['a'] == 'dtype' and act['form'] != 'obj_auto':          # the same format for a new Array: created with exactly that item size, or nothing is created
+            def mk():
+                b = Array(arr_new_dtype(act)); return [b.itemsize, len(b), b.data.bin]
+            out['create'] = list(attempt(mk))
+        if out['r'][0] == 'err' and c.get('then'):
+            out['then'] = [list(attempt(lambda: then(a))), arr_probe(a)]
+            b = fresh()
+            out['then_ref'] = [list(attempt(lambda: then(b))), arr_probe(b)]
+        return out
+    return attempt(f)
+
+def oracle_array_set(c, obs):
+    act = c['act']; k, w = c['k'], c['w']
+    what = f"Array({c['dtype']!r}, {c['items']}, trailing {c['trail']!r}) {act}"
+    if obs[0] != 'ok': return f"{what}: the Array could not be built or observed: {obs}"
+    o = obs[1]; r = o['r']; before, after = o['before'], o['after']
+    B, A = dict((l, v) for l, v in before), dict((l, v) for l, v in after)
+    n = len(c['items']); trail = c['trail']
+    if B['len'] != n or B['itemsize'] != w or B['data'][n * w:] != trail or len(B['data']) != n * w + len(trail): return f"{what}: the initial Array is not the one asked for: {before[:10]}"
+    slots = [B['data'][i * w:(i + 1) * w] for i in range(n)]
+    def unchanged(why, classes=('ValueError',)):
+        if r[0] != 'err': return f"{what}: {why}, must be refused; it was accepted and the Array is now {after[:10]}"
+        if classes and r[1] not in classes: return f"{what}: {why}, must raise {' / '.join(classes)}; raised {r[1]}"
+        if after != before:
+            diff = [(l, B[l], A[l]) for l, _ in before if B[l] != A[l]]
+            return f"{what}: {why}; the assignment was refused ({r[1]}) but the Array changed: " + '; '.join(f"{l}: {str(x)[:60]} -> {str(y)[:60]}" for l, x, y in diff[:6])
+        if 'then' in o and o['then'] != o['then_ref']:
+            return f"{what}: refused ({r[1]}), yet afterwards {c['then']} behaves differently from the same call on a fresh Array with the same content: {str(o['then'])[:200]} vs {str(o['then_ref'])[:200]}"
+        return None
+    def data_is(new_slots, tr, why):
+        if r[0] != 'ok': return f"{what}: {why}, must succeed; raised {r[1]}"
+        exp = ''.join(new_slots) + tr
+        if A['data'] != exp: return f"{what}: {why}: the data must be {exp!r}, it is {A['data']!r}"
+        if A['len'] != len(new_slots) or A['itemsize'] != w or A['trailing_bits'] != tr or A['dtype'] != B['dtype']: return f"{what}: {why}: len / itemsize / trailing bits / dtype are now {A['len']}, {A['itemsize']}, {A['trailing_bits']!r}, {A['dtype']}"
+        return None
+    def stored(i, v):
+        """item i of the Array after the call is the value that was assigned (ints, strs, bools, bytes, bits: exactly; floats: not judged here)"""
+        got = A['tolist'][i] if isinstance(A['tolist'], list) and -len(A['tolist']) <= i < len(A['tolist']) else None
+        if k in ('u', 'i'): return got == v
+        if k in ('hex', 'bin', 'oct'): return isinstance(got, str) and got.lower() == v.lower()
+        if k in ('bool', 'bytes', 'bits'): return got == v
+        return True
+    a = act['a']
+    if a in ('dtype', 'dtype_junk'):
+        if a == 'dtype_junk':
+            v = act['v']
+            return unchanged('not a format', ('ValueError',) if isinstance(v, str) else ())
+        bits = ARR_STRUCT[act['name']] if act['form'] == 'struct' else array_fmt_bits(act['name'], act['n'])
+        if 'create' in o:
+            cr = o['create']
+            if bits is None and cr[0] != 'err': return f"{what}: a new Array with this format was created: {cr}"
+            if bits is None and cr[1] != 'ValueError': return f"{what}: a new Array with this format must raise CreationError, raised {cr[1]}"
+            if bits is not None and (cr[0] != 'ok' or cr[1] != [bits, 0, '']): return f"{what}: a new Array with this format must have itemsize {bits} and no data: {cr}"
+        if act['form'] == 'obj_auto' and r == ['err', 'ValueError'] and bits is None and after == before: pass          # the Dtype object itself could not be made
+        if bits is None or act['form'] == 'obj_auto':
+            return unchanged("a format without a fixed non-zero item length" if bits is None else "an 'auto' scale is only for new Arrays")
+        if r[0] != 'ok': return f"{what}: a usable format of {bits} bits per item, must succeed; raised {r[1]}"
+        if A['itemsize'] != bits or A['dtype.bitlength'] != bits: return f"{what}: the item size must be exactly {bits} bits, it is {A['itemsize']}"
+        if A['data'] != B['data']: return f"{what}: changing the dtype altered the data"
+        if A['len'] != len(B['data']) // bits or A['trailing_bits'] != B['data'][len(B['data']) - len(B['data']) % bits:]: return f"{what}: {len(B['data'])} bits of data at {bits} bits per item: len {A['len']}, trailing {A['trailing_bits']!r}"
+        return None
+    if a == 'readonly': return unchanged('a read-only property', ('AttributeError',))
+    if a == 'setitem':
+        i, v = act['i'], act['v']; fit = arr_fits(k, w, v)
+        if not -n <= i < n: return unchanged('position out of range', ('IndexError',) if fit else ('IndexError', 'ValueError', 'TypeError'))
+        if fit is False: return unchanged('the value does not fit the dtype')
+        if fit is None: return unchanged('a value of an undocumented type', ()) if r[0] == 'err' else None
+        if r[0] != 'ok': return f"{what}: a value that fits, must succeed; raised {r[1]}"
+        new = list(slots); new[i] = A['data'][(i % n) * w:(i % n + 1) * w]
+        return data_is(new, trail, 'item assignment') or (None if stored(i, v) else f"{what}: item {i} is now {A['tolist'][i]!r}")
+    if a == 'setslice':
+        key, vs = act['key'], act['vs']; fits = [arr_fits(k, w, v) for v in vs]
+        rng_ = range(*slice(*key).indices(n)); step = slice(*key).indices(n)[2]
+        if step != 1 and len(vs) != len(rng_): return unchanged('an extended slice takes exactly as many values as it has positions', ('ValueError', 'TypeError') if None in fits else ('ValueError',))
+        if False in fits: return unchanged('a value does not fit the dtype', ('ValueError', 'TypeError') if None in fits else ('ValueError',))
+        if None in fits: return unchanged('a value of an undocumented type', ()) if r[0] == 'err' else None
+        model = list(range(n)); model[slice(*key)] = [('new', j) for j in range(len(vs))]
+        if r[0] != 'ok': return f"{what}: every value fits, must succeed; raised {r[1]}"
+        if A['len'] != len(model): return f"{what}: the list model has {len(model)} items afterwards, the Array {A['len']}"
+        new = [slots[m] if isinstance(m, int) else A['data'][p * w:(p + 1) * w] for p, m in enumerate(model)]
+        bad = [p for p, m in enumerate(model) if not isinstance(m, int) and not stored(p, vs[m[1]])]
+        return data_is(new, trail, 'slice assignment') or (f"{what}: item {bad[0]} is now {A['tolist'][bad[0]]!r}" if bad else None)
+    if a in ('append', 'insert', 'extend'):
+        vs = act['vs'] if a == 'extend' else [act['v']]; fits = [arr_fits(k, w, v) for v in vs]
+        if trail and a != 'insert': return unchanged('the data is not a whole number of items', ('ValueError',) if None not in fits else ('ValueError', 'TypeError'))
+        if False in fits or None in fits:
+            if None in fits and False not in fits and r[0] == 'ok': return None
+            if a == 'extend' and r[0] == 'err' and after != before:
+                # like list.extend with a failing iterator: the values before the first refused one may have been appended, nothing else
+                j = next(p for p, f in enumerate(fits) if f is not True)
+                if A['data'][:n * w] == B['data'] and A['len'] <= n + j and len(A['data']) == A['len'] * w and A['dtype'] == B['dtype'] and A['itemsize'] == w: return None
+            return unchanged('a value does not fit the dtype', ('ValueError', 'TypeError') if None in fits else ('ValueError',))
+        if r[0] != 'ok': return f"{what}: every value fits, must succeed; raised {r[1]}"
+        pos = n if a != 'insert' else (max(act['i'] + n, 0) if act['i'] < 0 else min(act['i'], n))
+        new = slots[:pos] + [A['data'][(pos + j) * w:(pos + j + 1) * w] for j in range(len(vs))] + slots[pos:]
+        bad = [j for j in range(len(vs)) if not stored(pos + j, vs[j])]
+        return data_is(new, trail, a) or (f"{what}: item {pos + bad[0]} is now {A['tolist'][pos + bad[0]]!r}" if bad else None)
+    if a in ('pop', 'delitem'):
+        i = act['i']
+        if not -n <= i < n: return unchanged('position out of range', ('IndexError',))
+        new = list(slots); del new[i]
+        if a == 'pop' and r[0] == 'ok' and r[1] != B['tolist'][i]: return f"{what}: pop returned {r[1]!r}, the item was {B['tolist'][i]!r}"
+        return data_is(new, trail, a)
+    if a == 'byteswap':
+        if w % 8: return unchanged('items are not whole bytes')
+        return data_is([''.join(reversed([s[j:j + 8] for j in range(0, w, 8)])) for s in slots], trail, 'byteswap')
+    if a == 'ibit':
+        b = act['bits']
+        if len(b) != w: return unchanged('the operand is not one item long')
+        fn = {'and': lambda x, y: x & y, 'or': lambda x, y: x | y, 'xor': lambda x, y: x ^ y}[act['f']]
+        return data_is([''.join(str(fn(int(p), int(q))) for p, q in zip(s, b)) for s in slots], trail, 'bit-wise in-place operator')
+    if a == 'iop':
+        import operator
+        f, x = act['f'], act['x']; items = B['tolist']
+        if 'shift' in f and abs(x) > 1000: return None          # the reference itself would need astronomically large integers
+        try: exp = [getattr(operator, f)(v, x) for v in items]
+        except (ZeroDivisionError, ValueError, OverflowError): return unchanged('the operator fails on an item')
+        if any(arr_fits(k, w, e) is not True for e in exp): return unchanged('a result does not fit the dtype')
+        if r[0] != 'ok': return f"{what}: every result {exp} fits, must succeed; raised {r[1]}"
+        if A['tolist'] != exp or A['len'] != n or A['itemsize'] != w or len(A['data']) != n * w: return f"{what}: the items must be {exp}, they are {A['tolist']} ({len(A['data'])} bits of data)"
+        return None
+    if a == 'iop_array':
+        numeric = k in ('u', 'i', 'f', 'bool') and act['d2'] in ('uint8', 'float16')
+        if max(0, n + act['dn']) != n or not numeric: return unchanged('Arrays of different lengths or of types that are not numbers cannot be combined', ('ValueError', 'TypeError'))
+        if r[0] == 'err': return unchanged('the operator failed', ())
+        return None
 
 def search(seeds, rng):
     for c in list(seeds) + list(gen_cases(rng, 'quick')):
